@@ -1,9 +1,10 @@
-(* C11_Proofs5.v — the proposed patch of utils.ToStringKey ([to_string_key_fixed]: escape '\' and '_'
-   in string parts, print the string "nil" as "\nil", print zero numbers as numbers) is faithful to
-   value equality for ALL keys of a typed schema, so the preload theorems hold without any
-   hypothesis on key contents.  It leaves every separator-free, non-"nil" output unchanged. *)
+(* C11_Proofs5.v — utils.ToStringKey as it is on the tree (escape '\' and '_' in string parts, print
+   the string "nil" as "\nil", print zero numbers as numbers) is faithful to SQL value equality for
+   ALL keys of a typed schema, so the preload / Association().Find theorems hold with no hypothesis
+   on key contents.  Relation to the previous encoding: identical on every key free of '\', '_',
+   the string "nil" and by-value zeros. *)
 From Coq Require Import DecimalString DecimalZ.
-From Verif Require Import Base C11_Model C11_Proofs C11_Proofs3.
+From Verif Require Import Base C11_Model C11_Proofs C11_Proofs2 C11_Proofs3 C11_Proofs4.
 Open Scope nat_scope.
 
 (* well-formed encoded part: a sequence of tokens, each a plain character (neither '\' nor '_')
@@ -119,11 +120,11 @@ Proof.
   destruct (Ascii.eqb a us) eqn:Eu; [apply Ascii.eqb_eq in Eu; subst a; discriminate|]. exact (IH Hs).
 Qed.
 
-Lemma part_fixed_wf p : wf (part_str_fixed p) = true.
+Lemma part_fixed_wf p : wf (part_str p) = true.
 Proof. destruct p; cbn; try apply esc_str_wf; try (apply allok_wf, dec_allok); reflexivity. Qed.
 
 Lemma part_fixed_val p q : sort_ok p q = true ->
-  part_str_fixed p = part_str_fixed q -> part_val p = part_val q.
+  part_str p = part_str q -> part_val p = part_val q.
 Proof.
   intros S E.
   destruct p as [s|s|n|z|z|], q as [s'|s'|n'|z'|z'|]; cbn in *; try discriminate; try reflexivity;
@@ -135,16 +136,16 @@ Proof.
     try (exfalso; symmetry in E; eapply dec_not_nil; eassumption).
 Qed.
 
-Lemma part_val_fixed p q : part_val p = part_val q -> part_str_fixed p = part_str_fixed q.
+Lemma part_val_fixed p q : part_val p = part_val q -> part_str p = part_str q.
 Proof.
   intro E. destruct p as [s|s|n|z|z|], q as [s'|s'|n'|z'|z'|]; cbn in *; try discriminate; try reflexivity;
     inversion E; subst; reflexivity.
 Qed.
 
 Lemma fixed_vals k1 k2 : compat k1 k2 ->
-  to_string_key_fixed k1 = to_string_key_fixed k2 -> kvals k1 = kvals k2.
+  to_string_key k1 = to_string_key k2 -> kvals k1 = kvals k2.
 Proof.
-  intros Cm E. unfold to_string_key_fixed in E.
+  intros Cm E. unfold to_string_key in E.
   apply join_inj_wf in E.
   - clear - Cm E. induction Cm as [|p q k1 k2 S Cm IH]; cbn in *; [reflexivity|].
     inversion E. f_equal; [apply part_fixed_val; assumption | apply IH; assumption].
@@ -153,17 +154,17 @@ Proof.
   - apply Forall_forall. intros s Hs. apply in_map_iff in Hs. destruct Hs as [p [<- _]]. apply part_fixed_wf.
 Qed.
 
-Lemma vals_fixed : forall k1 k2, kvals k1 = kvals k2 -> to_string_key_fixed k1 = to_string_key_fixed k2.
+Lemma vals_fixed : forall k1 k2, kvals k1 = kvals k2 -> to_string_key k1 = to_string_key k2.
 Proof.
-  intros k1 k2 E. unfold to_string_key_fixed. f_equal. unfold kvals in E.
+  intros k1 k2 E. unfold to_string_key. f_equal. unfold kvals in E.
   revert k2 E. induction k1 as [|p k1 IH]; intros [|q k2] E; cbn in *; try discriminate; [reflexivity|].
   inversion E. f_equal; [apply part_val_fixed; assumption | apply IH; assumption].
 Qed.
 
-(* with the patched encoding only schema typing is needed *)
-Theorem faithful_fixed ps cs :
+(* only schema typing is needed *)
+Theorem key_faithful ps cs :
   (forall k1 k2, In k1 ps -> In k2 ps \/ In k2 cs -> compat k1 k2) ->
-  keys_faithful to_string_key_fixed ps cs.
+  keys_faithful to_string_key ps cs.
 Proof.
   intro Cm. split.
   - intros k1 k2 H1 H2 _ _ E. apply fixed_vals; auto.
@@ -173,12 +174,37 @@ Proof.
     + intro E. unfold key_eqv in E. apply tuple_eqb_eq in E. destruct E as [E _]. apply vals_fixed; exact E.
 Qed.
 
-Theorem preload_fixed_total h ps cs :
+Theorem preload_total h ps cs :
   (forall k1 k2, In k1 ps -> In k2 ps \/ In k2 (map c_key cs) -> compat k1 k2) ->
-  preload_hop to_string_key_fixed h ps cs = Some (norm_single (h_single h) (attach h ps cs)).
-Proof. intro Cm. apply preload_hop_attach, faithful_fixed, Cm. Qed.
+  preload_hop to_string_key h ps cs = Some (norm_single (h_single h) (attach h ps cs)).
+Proof. intro Cm. apply preload_hop_attach, key_faithful, Cm. Qed.
 
-(* the patch changes no key that is free of '\', '_' and is not the string "nil" or a by-value zero *)
+(* corresponding key columns have the same SQL type *)
+Definition typed (ks1 ks2 : list key) : Prop :=
+  forall k1 k2, In k1 ks1 -> In k2 ks1 \/ In k2 ks2 -> compat k1 k2.
+
+Theorem preload_m2m_total h ps js cs :
+  typed ps (map fst js) -> typed (map snd js) (map c_key cs) ->
+  (forall j, In j js -> all_zero (snd j) = false) -> join_rows_unique ps js cs ->
+  preload_m2m to_string_key h ps js cs = Some (attach_m2m h ps js cs).
+Proof. intros T1 T2 Z U. apply preload_m2m_attach; auto using key_faithful. Qed.
+
+Theorem preload_nested_total h1 h2 ps cs1 cs2 :
+  let f := filter (owned h1 ps) cs1 in
+  typed ps (map c_key cs1) -> typed (map c_key2 f) (map c_key cs2) ->
+  preload_nested to_string_key h1 h2 ps cs1 cs2 =
+  (Some (norm_single (h_single h1) (attach h1 ps cs1)), map c_uid f,
+   Some (norm_single (h_single h2) (attach h2 (map c_key2 f) cs2))).
+Proof. intros f T1 T2. apply preload_nested_attach; apply key_faithful; assumption. Qed.
+
+Theorem assoc_find_total h ps cs :
+  (forall k1 k2, In k1 ps -> In k2 ps -> compat k1 k2) ->
+  assoc_find to_string_key h ps cs = map c_uid (filter (owned h ps) cs).
+Proof.
+  intro T. apply assoc_find_owned. intros k1 k2 H1 H2 _ _ E. apply fixed_vals; auto.
+Qed.
+
+(* the fix changed no key that is free of '\', '_' and is not the string "nil" or a by-value zero *)
 Fixpoint has_bs (s : string) : bool :=
   match s with EmptyString => false | String a r => Ascii.eqb a bs || has_bs r end.
 
@@ -196,9 +222,9 @@ Definition plain_part (p : keypart) : bool :=
   | _ => true
   end.
 
-Theorem fixed_unchanged k : forallb plain_part k = true -> to_string_key_fixed k = to_string_key k.
+Theorem encoding_unchanged k : forallb plain_part k = true -> to_string_key k = to_string_key_prev k.
 Proof.
-  intro H. unfold to_string_key_fixed, to_string_key. f_equal. apply map_ext_in. intros p Hp.
+  intro H. unfold to_string_key, to_string_key_prev. f_equal. apply map_ext_in. intros p Hp.
   rewrite forallb_forall in H. specialize (H p Hp).
   destruct p; cbn in *; try reflexivity.
   - apply andb_prop in H. destruct H as [H N]. apply andb_prop in H. destruct H as [U B].
@@ -212,9 +238,9 @@ Proof.
   - destruct (Z.eqb z 0); [discriminate | reflexivity].
 Qed.
 
-(* utils_test.go's expected outputs are kept, and the three witnesses are repaired *)
-Example fixed_keeps_tests :
-  to_string_key_fixed [KStr "a"] = "a"%string /\
-  to_string_key_fixed [KInt 1; KInt 2; KInt 3] = "1_2_3"%string /\
-  to_string_key_fixed [KInt 1; KNil; KInt 3] = "1_nil_3"%string.
+(* utils_test.go's expected outputs *)
+Example encoding_keeps_tests :
+  to_string_key [KStr "a"] = "a"%string /\
+  to_string_key [KInt 1; KInt 2; KInt 3] = "1_2_3"%string /\
+  to_string_key [KInt 1; KNil; KInt 3] = "1_nil_3"%string.
 Proof. repeat split; vm_compute; reflexivity. Qed.
